@@ -11,7 +11,7 @@ extracted model; the event traces (body starts/ends with import depth, importer 
 observed values, module identities) must agree exactly.
 The oracle (independent of the model) judges the implementation's observations: confinement of every file
 opened / every name requested, no sentinel executed, at most one run of a module body (a start is allowed
-only when every earlier start of the same module had failed), one module object per name, same-named globals
+only when every earlier start of the same module had failed; an import cycle must be an error), one module object per name, same-named globals
 of different modules and of the importer never alias."""
 import json
 import os
@@ -997,14 +997,14 @@ def oracle(route, evs, err, labels, expect, cyc_names):
                 if n in stack:
                     reentered.add(n)
                     viol.append(("once", "the body of module %r was started again while it was still running" % n,
-                                 "reentrant" if n in cyc_names else None))
+                                 None))
                 elif n in completed:
                     viol.append(("once", "the body of module %r was run again after it had completed" % n,
-                                 "reentrant" if n in reentered else None))
+                                 None))
                 stack.append(n)
             elif n in completed:
                 viol.append(("once", "the body of module %r was run again after it had completed" % n,
-                             "reentrant" if n in cyc_names else None))
+                             None))
         elif e[0] == "D":
             _, n, d = e
             if depth_ok:
@@ -1013,7 +1013,7 @@ def oracle(route, evs, err, labels, expect, cyc_names):
                     stack.pop()
             if n in completed:
                 viol.append(("once", "the body of module %r completed twice" % n,
-                             "reentrant" if (n in reentered or (not depth_ok and n in cyc_names)) else None))
+                             None))
             completed.add(n)
         elif e[0] == "O":
             v, d, sid = e[1], e[2], e[3]
@@ -1024,7 +1024,7 @@ def oracle(route, evs, err, labels, expect, cyc_names):
                 if nm in ids and ids[nm] != i:
                     n = bytes.fromhex(nm[2:]) if nm[2:] != "" else b""
                     viol.append(("same-object", "module %r was observed as two different module objects" % n,
-                                 "reentrant" if (n in reentered or (not depth_ok and n in cyc_names)) else None))
+                                 None))
                 ids.setdefault(nm, i)
             if sid > 0:
                 main_obs[sid] = v
@@ -1034,7 +1034,7 @@ def oracle(route, evs, err, labels, expect, cyc_names):
                 viol.append(("state", "%s (%s vs %s)" % (ex[3], main_obs[ex[1]], main_obs[ex[2]]), None))
         elif ex[0] == "equal-from":
             if ex[1] in main_obs and ex[2] in main_obs and main_obs[ex[1]] != main_obs[ex[2]]:
-                viol.append(("from-binding", "%s (%s vs %s)" % (ex[3], main_obs[ex[1]], main_obs[ex[2]]), "from-binding"))
+                viol.append(("from-binding", "%s (%s vs %s)" % (ex[3], main_obs[ex[1]], main_obs[ex[2]]), None))
         elif ex[0] == "is":
             if ex[1] in main_obs and main_obs[ex[1]] != ex[2]:
                 viol.append(("state", "%s (observed %s, expected %s)" % (ex[3], main_obs[ex[1]], ex[2]), None))
@@ -1082,7 +1082,8 @@ def run(res):
 
 
 def witness_cases():
-    """corpus: the witnesses of the theorems C14_refuted_reentrant / C14_retry and the probes of the design round"""
+    """corpus: the witnesses of C14_cycle_rejected / C14_from_binding_example (the two repaired defects), the retry
+    example and the probes of the design round"""
     selfi = {"name": b"selfi", "ext": b".risor", "bad": False, "vars": [(b"x0", 5)],
              "body": [("S", b"x0", 5), ("R", 1, [("I", b"selfi", b"inner", "ident"), ("O", [b"inner", b"x0"], -1)])]}
     cyc1 = {"name": b"cyc1", "ext": b".risor", "bad": False, "vars": [(b"x0", 1)], "body": [("S", b"x0", 1), ("I", b"cyc2", None, "ident")]}
@@ -1127,7 +1128,7 @@ def body(res, tools, work, proved):
     samples = []
     stats = {"texts": 0, "texts_parsed": 0, "texts_rejected": 0, "texts_model_unsupported": 0, "text_ast_diffs": 0,
              "programs": 0, "routes": 0, "model_fuel": 0, "model_unbound": 0, "model_fuzzy": 0, "no_depth": 0,
-             "err_classes": {}, "spellings": {}, "reentrant_cases": 0, "retry_cases": 0}
+             "err_classes": {}, "spellings": {}, "cycle_cases": 0, "retry_cases": 0}
     nontrivial = set()
     evals = 0
 
@@ -1213,14 +1214,14 @@ def body(res, tools, work, proved):
     wf, widx, wlabels = tree_files(rng, wm)
     cases.append({"mods": wm, "files": wf, "idx": widx, "labels": wlabels, "rootarg": "",
                   "progs": wmains, "flavour": "witness"})
-    flavours = ["dag"] * 22 + ["cyclic", "selfonce"]
+    flavours = ["dag"] * 18 + ["cyclic"] * 4 + ["selfonce"] * 2
     rootargs = ["", "", "", ROOT + "/", "outer/./root", "outer/other/../root", ROOT + "//"]
     for ti in range(n_trees):
         g = Gen(rng)
         fl = rng.choice(flavours)
         mods = g.tree(fl)
         files, idx, labels = tree_files(rng, mods)
-        progs = [g.main(mods) for _ in range(mains_per_tree if fl == "dag" else 2)]
+        progs = [g.main(mods) for _ in range(mains_per_tree)]
         cases.append({"mods": mods, "files": files, "idx": idx, "labels": labels, "rootarg": rng.choice(rootargs),
                       "progs": progs, "flavour": fl})
     go_cases = []
@@ -1267,9 +1268,9 @@ def body(res, tools, work, proved):
             if acc != "acc=1":
                 corr_diffs.append({"stage": "accepted", "case": case, "model": "generated program not accepted by the model"})
             compare_routes(o, mevs, outcome, c["idx"], case, corr_diffs, stats)
-            if any(v[2] + v[4] > 0 for v in counters.values()):
-                stats["reentrant_cases"] += 1
-            if any(v[3] > 0 and v[0] > 1 for v in counters.values()):
+            if any(v[3] > 0 for v in counters.values()):
+                stats["cycle_cases"] += 1
+            if any(v[2] > 0 and v[0] > 1 for v in counters.values()):
                 stats["retry_cases"] += 1
             if sum(1 for e in mevs if e[0] == "S") >= 2:
                 nontrivial.add(("tree", ci, pi))
@@ -1297,8 +1298,7 @@ def body(res, tools, work, proved):
     res.assumptions += [
         "filepath.Join/Clean, regexp matching and os.ReadFile are modelled (Unix semantics), validated by the comparison of file names",
         "symlinks inside the import root are outside the property (path strings only)",
-        "C14_once is stated for evaluations in which no module is imported while its own body is running; "
-        "a body that fails is run again when imported again (by design), which the accounting theorem makes explicit",
+        "a body that fails is run again when imported again (by design): C14_once bounds the starts by 1 + failures",
         "cloned VMs (spawn/go) snapshot the module cache: two goroutines may each run a not-yet-cached module (stated, not proved away)",
     ]
 
